@@ -8,6 +8,7 @@ mod c01;
 mod c03;
 mod c05;
 mod c08;
+mod c12;
 mod c17;
 mod c19;
 mod common;
@@ -32,6 +33,7 @@ fn main() {
         match args[2].as_str() {
             "c17" => c17::worker(&rest),
             "rec" => c05::worker(&rest),
+            "c12" => c12::worker(&rest),
             _ => usage(),
         }
         return;
@@ -72,6 +74,7 @@ fn main() {
             "C08" => c08::run(ctx),
             "C03" => c03::run(ctx, c03::Mode::C03),
             "C16" => c03::run(ctx, c03::Mode::C16),
+            "C12" => c12::run(ctx),
             "C17" => c17::run(ctx),
             "C19" => c19::run(ctx),
             _ => {
